@@ -947,6 +947,11 @@ func (p *context) compileInstrOrValue(b llssa.Builder, iv instrOrValue, asValue 
 		if v.Max != nil {
 			max = p.compileValue(b, v.Max)
 		}
+		if p.sliceNeedsNilCheck(vx) {
+			// slicing a nil *array panics; no load happens here that could fault
+			p.assertNilDerefBase(b, vx)
+			b.AssertNilDeref(x)
+		}
 		ret = b.Slice(x, low, high, max)
 		ret.Type = p.type_(v.Type(), llssa.InGo)
 	case *ssa.MakeInterface:
@@ -1045,6 +1050,19 @@ func (p *context) compileInstrOrValue(b llssa.Builder, iv instrOrValue, asValue 
 	}
 	p.bvals[iv] = ret
 	return ret
+}
+
+// sliceNeedsNilCheck reports whether the operand of a Slice instruction is an
+// array pointer that may be nil (allocations and globals never are).
+func (p *context) sliceNeedsNilCheck(x ssa.Value) bool {
+	if _, ok := x.Type().Underlying().(*types.Pointer); !ok {
+		return false
+	}
+	switch x.(type) {
+	case *ssa.Alloc, *ssa.Global:
+		return false
+	}
+	return true
 }
 
 func (p *context) assertNilDerefBase(b llssa.Builder, addr ssa.Value) {
